@@ -441,6 +441,10 @@ def jobs(tier):
                     js.append(Job(f"names[{'.'.join(ca)}|{'.'.join(cb)}]", C04.job_names, A=ca, B=cb))
     for n, c in ((9, "x6"), (11, "x5"), (14, "x5")):
         js.append(Job(f"long_names[{n}x{c}]", C04.job_long_names, A=(c,) * n, B=(c,) * n))
+    # K3: file name -> code points (pattern language) and the glyph map's CSV round trip (csv modelled, names symbolic)
+    from harness import C04_filename, C10_csv
+
+    js += C04_filename.jobs(tier) + C10_csv.jobs(tier)
     return js
 
 
@@ -452,9 +456,9 @@ def main(tier):
         explanation="Bounded symbolic execution of config.write -> config.load (with _pop_flag and the FLAGS object) with every FontConfig field symbolic, iterating FontConfig._fields of the live class, and of the parts JSON round trip; toml/json replaced by identity-on-dict stubs whose contract is checked against the real libraries. Glyph-name distinctness/legality is decided in C04 (same kernel).",
         bounds={"ints": "[-5000,5000]", "reuse_tolerance": "[-1,10]", "transform": "six reals in [-100,100] through Affine2D.tostring/fromstring with tokens", "axes/masters": "1 master, or 2 masters x 2 axes with symbolic positions",
                 "flags": "none / each single flag / all flags", "strings": "distinct concrete constants (incl. spaces)"},
-        outside=["CSV dialect of the glyph map (_csv is C)", "the regex engine's matching order inside codepoints.from_filename (the pattern's language is decided; how the C engine cuts a name is sampled)", "real toml/json text formatting", "shlex/ninja quoting"],
+        outside=["the C csv module itself (replaced by a pure-Python port of its writer/reader state machines, validated against it on all strings of length <= 4 over the characters they distinguish)", "file names containing control characters (C0/C1: no line-oriented file can carry a line break inside a name)", "the regex engine's matching order inside codepoints.from_filename (the pattern's language is decided; how the C engine cuts a name is sampled)", "real toml/json text formatting", "shlex/ninja quoting"],
         assumptions=["toml round-trips int/float/bool/str/nested tables and drops None (checked concretely once per run)", "json stub is the identity on the dict"],
         shims=["nanoemoji.config int/float", "picosvg.svg_transform.float (token strings)", "nanoemoji.parts int/float"],
-        stubs=["toml -> TomlStub", "FLAGS -> attribute bag", "Path -> StubPath(write_text/parent)", "json -> JsonStub"],
+        stubs=["csv -> CsvModel, StringIO -> StubIO, Path -> StubPath (instrumented glyphmap module)", "toml -> TomlStub", "FLAGS -> attribute bag", "Path -> StubPath(write_text/parent)", "json -> JsonStub"],
         budget_s=600 if tier == "quick" else 2400,
     )
